@@ -32,7 +32,7 @@ func initInitDefinitionNode() {
 			}
 
 			var argThrowType ast.TypeNode
-			if !args[3].IsUndefined() {
+			if !args[3].IsUndefined() && !args[3].IsNil() {
 				argThrowType = args[3].MustReference().(ast.TypeNode)
 			}
 
